@@ -28,3 +28,17 @@ Proof.
   - intros D C. exact (proj1 (complete_run_sequential Enc first H s I D C)).
 Qed.
 Print Assumptions C04_appends_in_id_order_for_every_schedule.
+
+(* down to the bytes, for the pipelines whose container is modelled (NONE/NONE: write_stream; NONE/NONE and NONE/RANGE:
+   write_stream_e): the stream is the same whatever the Write partition, the job counts and the size hints *)
+From KV Require Import Model.Header Model.Container Model.ContainerG Proofs.StreamBytes.
+Theorem C04_stream_bytes_depend_on_data_only : forall (hash : list N -> N) c jobs1 jobs2 hint1 hint2 ws1 ws2,
+  let B := h_bsize c in
+  (0 < B)%N -> (0 < jobs1)%N -> (0 < jobs2)%N -> concat ws1 = concat ws2 ->
+  exists a1 a2 b1 b2,
+    do_writes B jobs1 hint1 (init_w jobs1) ws1 = (a1, true) /\ w_close B jobs1 hint1 (fun _ => false) a1 false false = (a2, false) /\
+    do_writes B jobs2 hint2 (init_w jobs2) ws2 = (b1, true) /\ w_close B jobs2 hint2 (fun _ => false) b1 false false = (b2, false) /\
+    write_stream hash c (map snd (w_out a2)) = write_stream hash c (map snd (w_out b2)) /\
+    write_stream_e hash c (map snd (w_out a2)) = write_stream_e hash c (map snd (w_out b2)).
+Proof. exact stream_bytes_depend_on_data_only. Qed.
+Print Assumptions C04_stream_bytes_depend_on_data_only.
